@@ -87,6 +87,9 @@ func RunChecks(opt Options) int {
 		r.Analysed["functions"] = len(p.Funcs)
 		r.Analysed["routes"] = len(v.Routes)
 		r.Trust("Go type checker and go/ssa construction (golang.org/x/tools v0.29.0)")
+		for _, rn := range p.Renamed {
+			r.Note("renamed function treated under its reference name: %s", rn)
+		}
 		func() {
 			defer func() {
 				if x := recover(); x != nil {
